@@ -134,3 +134,9 @@ Fixpoint for_try {X S} (l : list X) (s : S) (body : X -> S -> res (result S)) : 
   | [] => Val (Ok s)
   | x :: t => let* r := body x s in match r with Ok s' => for_try t s' body | Err e => Val (Err e) end
   end.
+
+(* ---------- mul.rs ---------- *)
+(* Iterator::reduce: None for no items, otherwise the left fold starting from the first *)
+Definition reduce_opt {X} (f : X -> X -> X) (l : list X) : option X := match l with [] => None | x :: t => Some (fold_left f t x) end.
+(* Option::unwrap_unchecked *)
+Definition unwrap_unchecked {X} (o : option X) : res X := match o with Some x => Val x | None => UB UBUnwrapNone end.
